@@ -74,12 +74,16 @@ class Rec:
     def __init__(self):
         self.items = {}
         self.random_items = []
+        self.values = {}
 
     def put(self, name, arr, random=False):
         assert name not in self.items, name
         self.items[name] = digest(arr.data if hasattr(arr, "data") and not isinstance(arr, np.ndarray) else arr)
         if random:
             self.random_items.append(name)
+        if name.startswith("chk/"):
+            a = np.asarray(arr.data if hasattr(arr, "data") and not isinstance(arr, np.ndarray) else arr)
+            self.values[name] = [float(v) for v in a.reshape(-1)[:8]]
 
 
 def mlp():
@@ -222,6 +226,80 @@ def fixed(rec, pre, k):
     rec.put(pre + "conv_out", s); rec.put(pre + "conv_grad_x", xi._grad); rec.put(pre + "conv_grad_k", k2._grad)
 
 
+def seedcheck(rec, seed):
+    """direct statement: after manual_seed(s) the two global generators are in the state np.random.seed(s) / random.seed(s) give"""
+    import random as pyrandom
+    np.random.seed((seed + 12345) % 2 ** 32); pyrandom.seed(seed + 12345)        # some other state first
+    np.random.rand(3); pyrandom.random()
+    sg.manual_seed(seed)
+    got_np = np.array([np.random.rand(), np.random.randn()] + list(np.random.randint(0, 1000, 3)))
+    got_py = np.array([pyrandom.random(), pyrandom.gauss(0, 1), pyrandom.randrange(10 ** 6)])
+    np.random.seed(seed); pyrandom.seed(seed)
+    want_np = np.array([np.random.rand(), np.random.randn()] + list(np.random.randint(0, 1000, 3)))
+    want_py = np.array([pyrandom.random(), pyrandom.gauss(0, 1), pyrandom.randrange(10 ** 6)])
+    rec.put("chk/got/manual_seed/numpy_first_draws", got_np, True); rec.put("chk/want/manual_seed/numpy_first_draws", want_np, True)
+    rec.put("chk/got/manual_seed/python_first_draws", got_py, True); rec.put("chk/want/manual_seed/python_first_draws", want_py, True)
+
+
+def junk(shapes, fill):
+    """allocate and free arrays of exactly the sizes of the buffers the next op will allocate, filled with `fill`
+    (so that an uninitialised buffer of that size is likely to contain it)"""
+    for _ in range(3):
+        tmp = []
+        for sh in shapes:
+            for dt in (np.float32, np.float64):
+                tmp.append(np.full(sh, fill, dtype=dt))
+        del tmp
+
+
+def gaps(rec, pre, i):
+    """windows that leave GAPS (stride > dilated kernel extent): positions no window covers must be exact zeros whatever the
+    heap held before; fixed data, junk of the buffers' sizes allocated and freed before every call"""
+    from synapgrad.nn import functional as NF
+    fill = [float("nan"), 1e30, -3.25, 7.0][i % 4]
+    cases = [
+        ("maxpool1d_k2_s3", lambda x: NF.max_pool1d(x, 2, 3, 0, 1), (2, 2, 9), [2, 5, 8]),
+        ("avgpool1d_k2_s4", lambda x: NF.avg_pool1d(x, 2, 4, 0, 1), (2, 2, 10), [2, 3, 6, 7]),
+        ("maxpool1d_k2_s3_d2", lambda x: NF.max_pool1d(x, 2, 3, 0, 2), (2, 2, 9), [1, 4, 7]),
+        ("maxpool1d_k2_s3_pad1", lambda x: NF.max_pool1d(x, 2, 3, 1, 1), (2, 2, 9), None),
+        ("maxpool2d_k2_s3", lambda x: NF.max_pool2d(x, (2, 2), (3, 3), (0, 0), (1, 1)), (1, 2, 8, 8), None),
+        ("avgpool2d_k2_s3", lambda x: NF.avg_pool2d(x, (2, 2), (3, 3), (0, 0), (1, 1)), (1, 2, 8, 8), None),
+    ]
+    for name, f, shape, gap_idx in cases:
+        n = int(np.prod(shape))
+        x = sg.Tensor(((np.arange(n, dtype=np.float32) * 7) % 11 - 5.0).reshape(shape) / 4.0, requires_grad=True)
+        junk([shape, shape[:-1] + (shape[-1] + 2,)], fill)
+        y = f(x)
+        junk([shape, shape[:-1] + (shape[-1] + 2,)], fill)
+        (y * y).sum().backward()
+        rec.put(pre + "gaps/%s/out" % name, y); rec.put(pre + "gaps/%s/grad_x" % name, x._grad)
+        rec.put(pre + "gaps/%s/grad_finite" % name, np.array([bool(np.isfinite(x._grad).all())]))
+        if i == 0 and gap_idx is not None:
+            rec.put("chk/got/gaps/%s/grad_at_uncovered_positions" % name, x._grad[..., gap_idx])
+            rec.put("chk/want/gaps/%s/grad_at_uncovered_positions" % name, np.zeros(shape[:-1] + (len(gap_idx),), dtype=np.float32))
+    # conv2d with stride > kernel: input gradient goes through place_windows
+    xs = (1, 1, 8, 8)
+    x = sg.Tensor(((np.arange(64, dtype=np.float32) * 5) % 13 - 6.0).reshape(xs) / 8.0, requires_grad=True)
+    w = sg.Tensor((np.arange(8, dtype=np.float32).reshape(2, 1, 2, 2) - 3.0) / 4.0, requires_grad=True)
+    junk([xs], fill)
+    y = NF.conv2d(x, w, None, (3, 3), (0, 0), (1, 1))
+    junk([xs], fill)
+    (y * y).sum().backward()
+    rec.put(pre + "gaps/conv2d_k2_s3/out", y); rec.put(pre + "gaps/conv2d_k2_s3/grad_x", x._grad); rec.put(pre + "gaps/conv2d_k2_s3/grad_w", w._grad)
+    rec.put(pre + "gaps/conv2d_k2_s3/grad_finite", np.array([bool(np.isfinite(x._grad).all())]))
+    # fold with gaps: forward goes through place_windows
+    cols = sg.Tensor(((np.arange(1 * 4 * 9, dtype=np.float32) * 3) % 7 - 3.0).reshape(1, 4, 9) / 2.0, requires_grad=True)
+    junk([(1, 1, 8, 8)], fill)
+    z = NF.fold(cols, (8, 8), (2, 2), 1, 3, 0)
+    junk([(1, 4, 9)], fill)
+    (z * z).sum().backward()
+    rec.put(pre + "gaps/fold_k2_s3/out", z); rec.put(pre + "gaps/fold_k2_s3/grad", cols._grad)
+    rec.put(pre + "gaps/fold_k2_s3/out_finite", np.array([bool(np.isfinite(z.data).all())]))
+    if i == 0:
+        rec.put("chk/got/gaps/fold_k2_s3/uncovered_rows", z.data[:, :, [2, 5], :])
+        rec.put("chk/want/gaps/fold_k2_s3/uncovered_rows", np.zeros((1, 1, 2, 8), dtype=np.float32))
+
+
 def catalog_part(rec, pre, seed, k, limit):
     """ops of lib/opcatalog.py on operands drawn from the seeded global generators, forward + backward"""
     if ROOT not in sys.path:
@@ -268,12 +346,14 @@ def run(seed, k=0, reps=0, catalog=-1):
     rec = Rec()
     body(rec, "run1/", seed, k)
     body(rec, "run2/", seed, k)
+    seedcheck(rec, seed)
     for i in range(reps):
         fixed(rec, "fixed/%d/" % i, k)
+        gaps(rec, "fixed/%d/" % i, i)
     if catalog >= 0:
         catalog_part(rec, "cat1/", seed, k, catalog)
         catalog_part(rec, "cat2/", seed, k, catalog)
-    return {"items": rec.items, "random_items": rec.random_items,
+    return {"items": rec.items, "random_items": rec.random_items, "chk_values": rec.values,
             "meta": {"seed": seed, "perturb": k, "reps": reps, "hashseed": os.environ.get("PYTHONHASHSEED"),
                      "numpy": np.__version__, "python": sys.version.split()[0], "repo": REPO,
                      "flags_hash_randomization": sys.flags.hash_randomization,
